@@ -203,7 +203,7 @@ func (r *Runner) CreateScope(parent int, ctxKind int) (*ScopeRec, *Obs) {
 		}
 		o.Err = err
 		if err == nil {
-			if s == nil || reflect.ValueOf(s).IsNil() {
+			if s == nil || isNilValue(s) {
 				o.Err = fmt.Errorf("harness: CreateScope returned nil scope and nil error")
 				return
 			}
@@ -237,7 +237,7 @@ func (r *Runner) Resolve(tag int, id Ident) *Obs {
 		p := r.target(tag)
 		rt := RType(id.T)
 		toEntry := func(v any) {
-			if s, ok := v.(Svc); ok && s != nil && !reflect.ValueOf(v).IsNil() {
+			if s, ok := v.(Svc); ok && s != nil && !isNilValue(v) && s.Ent() != nil {
 				o.Entries = append(o.Entries, s.Ent())
 			} else {
 				o.Foreign = true
@@ -415,4 +415,14 @@ func (r *Runner) ScopeRecOf(tag int) *ScopeRec {
 	r.mu.Lock()
 	defer r.mu.Unlock()
 	return r.Scopes[tag]
+}
+
+// isNilValue: a nil pointer / interface; values of struct kind are never nil.
+func isNilValue(v any) bool {
+	rv := reflect.ValueOf(v)
+	switch rv.Kind() {
+	case reflect.Pointer, reflect.Interface, reflect.Map, reflect.Slice, reflect.Func, reflect.Chan:
+		return rv.IsNil()
+	}
+	return false
 }
